@@ -501,3 +501,240 @@ def clean(pid, tier, replay):
         return engine.engine_replay(pid, replay)
     fams = _fams([dict(fam="clean", K=3, CH=6)], [dict(fam="clean", K=30, CH=40)], tier)
     return engine.engine_check(pid, fams, tier, maxruns=2 if tier == "quick" else 4, props=["C18"])
+
+
+@reg("C20")
+def status(pid, tier, replay):
+    if replay:
+        return engine.engine_replay(pid, replay)
+    fams = _fams([dict(fam="pools", K=1, CH=1), dict(fam="fail", K=1, CH=2), dict(fam="restat", K=4, CH=3), dict(fam="dyn", K=1, CH=2), dict(fam="intr", K=1, CH=1)],
+                 [dict(fam="pools", K=8, CH=1), dict(fam="fail", K=9, CH=10), dict(fam="restat", K=40, CH=4), dict(fam="dyn", K=1, CH=20), dict(fam="intr", K=6, CH=3)], tier)
+    return engine.engine_check(pid, fams, tier, maxruns=16 if tier == "quick" else 100, props=["C20"])
+
+
+@reg("C12")
+def manifest(pid, tier, replay):
+    import random, re
+    t0 = time.time()
+    bins = nbuild.build("dbg", ["fn"])
+    wd = scratch(pid)
+    try:
+        found, nviol = [], 0
+
+        def variants(files, rng):
+            """Layout variants that do not change the meaning (chosen by seed)."""
+            out = [files]
+            v = {}
+            mode = rng.randrange(4)
+            for name, text in files.items():
+                lines = text.split("\n")
+                if mode == 0:      # CRLF
+                    text2 = "\r\n".join(lines)
+                elif mode == 1:    # comments between the lines, blank lines
+                    l2 = []
+                    for ln in lines:
+                        if ln and not ln.startswith(" ") and rng.random() < 0.5:
+                            l2.append("# a comment: with $ and = signs")
+                        l2.append(ln)
+                    text2 = "\n".join(l2)
+                elif mode == 2:    # $-newline continuations in values and before inputs
+                    l2 = []
+                    for ln in lines:
+                        if " = " in ln and rng.random() < 0.6:
+                            ln = ln.replace(" = ", " = $\n      ", 1)
+                        elif ln.startswith("build ") and ": " in ln and rng.random() < 0.6:
+                            ln = ln.replace(": ", ": $\n    ", 1)
+                        l2.append(ln)
+                    text2 = "\n".join(l2)
+                else:              # $x instead of ${x} where the next character cannot continue the name
+                    text2 = re.sub(r"\$\{([a-z_]+)\}(?![A-Za-z0-9_\-])", r"$\1", text)
+                v[name] = text2
+            out.append(v)
+            return out
+
+        def run(vectors):
+            nonlocal nviol
+            vp = os.path.join(wd, "vec.ndjson")
+            with open(vp, "w") as f:
+                for files, exp, tag in vectors:
+                    f.write(json.dumps({"files": files}) + "\n")
+            op = os.path.join(wd, "out.ndjson")
+            r = subprocess.run(["timeout", "900", bins["fn"], "manifest", vp, op], capture_output=True, text=True)
+            if r.returncode != 0:
+                raise Broken("fn manifest failed: " + r.stderr[-500:])
+            outs = [json.loads(l) for l in open(op)]
+            stats = {"accepted": 0, "rejected": 0}
+            for (files, exp, tag), got in zip(vectors, outs):
+                what = None
+                if exp["ok"] != got["ok"]:
+                    what = "manifest is %s by the documented rules (%s) but ninja %s it (%s)" % ("valid" if exp["ok"] else "invalid", exp["err"] or "-", "accepted" if got["ok"] else "rejected", got.get("err", "").strip()[:80])
+                elif exp["ok"]:
+                    stats["accepted"] += 1
+                    for k in ("edges", "defaults", "pools"):
+                        if exp[k] != got[k]:
+                            d = ""
+                            if k == "edges":
+                                for a, b in zip(exp[k], got[k]):
+                                    for kk in a:
+                                        if a[kk] != b.get(kk):
+                                            d = "%s of %s: documented %r, ninja %r" % (kk, a["outs"], a[kk], b.get(kk))
+                                            break
+                                    if d:
+                                        break
+                            what = "graph differs from the documented meaning (%s) %s" % (k, d)
+                            break
+                else:
+                    stats["rejected"] += 1
+                    if not re.match(r"^[A-Za-z_.]+\.ninja:\d+: ", got.get("err", "")):
+                        what = "rejected without a file:line diagnostic: %r" % got.get("err", "")[:80]
+                if what:
+                    nviol += 1
+                    if len(found) < 25:
+                        p = replay or save_replay(pid, "prog-%d" % nviol, {"property": pid, "files": files, "exp": exp, "layout": tag})
+                        found.append((p, what))
+            return stats
+
+        if replay:
+            rp = json.load(open(replay))
+            run([(rp["files"], rp["exp"], rp.get("layout", ""))])
+            return report(pid, found, {})
+        K = 150 if tier == "quick" else 1500
+        mc = fnlib.mc_run("Manifest.tla", "SPECIFICATION Spec\nINVARIANT Total\nCHECK_DEADLOCK FALSE\n", wd, workers=4, env={"K": max(2, K // 10)}, xmx="8g", timeout=2400)
+        if mc["error"]:
+            raise Broken("Manifest model check failed: %s\n%s" % (mc["error"], mc["out"][-1500:]))
+        vec = os.path.join(wd, "progs.ndjson")
+        r = run_tlc("Manifest.tla", os.path.join(wd, "exp.cfg") if False else _write(os.path.join(wd, "exp.cfg"), "INIT StopInit\nNEXT Next\nCHECK_DEADLOCK FALSE\n"),
+                    env={"K": K, "OUT": vec}, extra=["-noGenerateSpecTE", "-seed", str(seed())], timeout=2400, xmx="12g")
+        if r["error"] or not os.path.exists(vec):
+            raise Broken("Manifest export failed: %s\n%s" % (r["error"], r["out"][-1500:]))
+        rng = random.Random(seed())
+        vectors = []
+        for line in open(vec):
+            j = json.loads(line)
+            vs = variants(j["files"], rng)
+            vectors.append((vs[0], j["exp"], "plain"))
+            vectors.append((vs[1], j["exp"], "variant"))
+        stats = run(vectors)
+        acc = [v for v in vectors if v[1]["ok"]]
+        write_evidence(pid, tier, "model_checking", {
+            "states": mc["distinct"], "transitions": mc["states"],
+            "traces_validated_against_impl": len(vectors),
+            "samples": [{"files": v[0], "expected": v[1]} for v in (acc[:1] + vectors[:1])],
+            "evaluations": len(vectors), "distinct_nontrivial": stats["accepted"],
+            "rule": "programs of the bounded grammar of Manifest.tla (slots filled from classes of statement forms: bindings with $-escapes and shadowing at every scope, "
+                    "rules with every reserved binding, build statements with every input kind / implicit outputs / validations / build-level bindings / pool / dyndep, "
+                    "defaults, pools, include and subninja of a second file, the legacy phony forms, and every constraint violation), TLC-sampled by seed; each program in a plain "
+                    "and a layout variant (CRLF, comments, $-newline continuations, $x for ${x}); non-trivial = programs accepted by the reference (their whole graph is compared)",
+            "accepted_programs": stats["accepted"], "rejected_programs": stats["rejected"], "exhaustive": False,
+        }, time.time() - t0, nviol, ["TLC", "Manifest.tla as the reading of the manual", "paths and values come from a fixed vocabulary (canonicalisation and quoting of those are tabulated in the spec)"])
+        return report(pid, found, {})
+    finally:
+        shutil.rmtree(wd, ignore_errors=True)
+
+
+def _write(path, text):
+    open(path, "w").write(text)
+    return path
+
+
+@reg("C13")
+def robustness(pid, tier, replay):
+    t0 = time.time()
+    bins = nbuild.build("asan", ["c13"])
+    dbg = nbuild.build("dbg", ["logh"])
+    wd = scratch(pid)
+    env = dict(os.environ)
+    env["ASAN_OPTIONS"] = "detect_leaks=0:exitcode=77:abort_on_error=0:detect_stack_use_after_return=0"
+    env["UBSAN_OPTIONS"] = "halt_on_error=1:exitcode=77:print_stacktrace=1"
+    env["C13_QUIET"] = "1"
+    try:
+        found, nviol = [], 0
+        if replay:
+            rp = json.load(open(replay))
+            sp = os.path.join(wd, "seed.ndjson")
+            open(sp, "w").write(json.dumps({"in": rp["in"]}) + "\n")
+            # mutate mode with 0 edits is not available: enumerate the single input through a one-token alphabet
+            ap = os.path.join(wd, "alpha.json")
+            json.dump({rp["mode"]: {"max": 1, "tokens": [rp["in"]]}}, open(ap, "w"))
+            rep = os.path.join(wd, "rep.ndjson")
+            e2 = dict(env)
+            e2.pop("C13_QUIET")
+            r = subprocess.run([bins["c13"], "enum", rp["mode"], ap, "1", "1", rep], env=e2, capture_output=True, text=True)
+            print(r.stderr[-3000:])
+            for line in open(rep):
+                found.append((replay, "ninja's %s reader %s on this input" % (rp["mode"], json.loads(line)["kind"])))
+            return report(pid, found, {})
+        alpha = os.path.join(wd, "alphabets.json")
+        r = run_tlc("Fuzz.tla", _write(os.path.join(wd, "fz.cfg"), "INIT Init\nNEXT Next\n"), env={"OUT": alpha}, extra=["-noGenerateSpecTE"], timeout=300)
+        if r["error"] or not os.path.exists(alpha):
+            raise Broken("Fuzz.tla export failed: %s" % r["error"])
+        spec = json.load(open(alpha))
+        # tokens per input: the spec's bound for the thorough tier, one less for the quick tier
+        total = processed = 0
+        per = {}
+        samples = []
+        for mode, cfg in spec.items():
+            maxlen = cfg["max"] if tier == "thorough" else cfg["max"] - 1
+            rep = os.path.join(wd, "rep_%s.ndjson" % mode)
+            r = subprocess.run(["timeout", "3000", bins["c13"], "enum", mode, alpha, str(maxlen), str(NCPU), rep], env=env, capture_output=True, text=True)
+            if r.returncode != 0:
+                raise Broken("c13 enum %s failed rc=%d %s" % (mode, r.returncode, r.stderr[-500:]))
+            nums = {k: int(v) for k, v in (t.split("=") for t in r.stderr.split() if "=" in t and t.split("=")[1].isdigit())}
+            per[mode] = {"tokens": len(cfg["tokens"]), "max_tokens": maxlen, "inputs": nums.get("inputs", 0), "error_exits": nums.get("error_exits", 0)}
+            total += nums.get("inputs", 0)
+            for line in open(rep):
+                j = json.loads(line)
+                nviol += 1
+                if len(found) < 25:
+                    p = save_replay(pid, "%s-%d" % (mode, j["index"]), {"property": pid, "mode": mode, "in": j["in"], "kind": j["kind"], "status": j["status"]})
+                    found.append((p, "ninja's %s reader: %s (status %s) on input %r" % (mode, j["kind"], j["status"], bytes(j["in"])[:80])))
+        # seeded mutations of longer valid inputs: manifests rendered by TLC from Manifest.tla, logs written by the real writers
+        seeds = {}
+        mv = os.path.join(wd, "progs.ndjson")
+        r = run_tlc("Manifest.tla", _write(os.path.join(wd, "exp.cfg"), "INIT StopInit\nNEXT Next\nCHECK_DEADLOCK FALSE\n"),
+                    env={"K": 20, "OUT": mv}, extra=["-noGenerateSpecTE", "-seed", str(seed())], timeout=600, xmx="6g")
+        if not r["error"] and os.path.exists(mv):
+            seeds["manifest"] = [{"in": list(json.loads(l)["files"]["build.ninja"].encode())} for l in open(mv)][:400]
+        for kind, mode in (("blog", "buildlog"), ("dlog", "depslog")):
+            gp = os.path.join(wd, "gen_%s.ndjson" % kind)
+            tp = os.path.join(wd, "tr_%s.ndjson" % kind)
+            subprocess.run([dbg["logh"], "gen", kind, str(seed()), "12", gp], check=True)
+            subprocess.run([dbg["logh"], "run", kind, gp, tp], check=True, capture_output=True)
+            ss = []
+            for line in open(tp):
+                j = json.loads(line)
+                if j.get("e") == "LogOp" and j["bytes"]:
+                    b = j["bytes"][16:] if mode == "depslog" else j["bytes"]
+                    ss.append({"in": b})
+            seeds[mode] = ss[-60:]
+        nmut = 4000 if tier == "quick" else 60000
+        for mode, ss in seeds.items():
+            if not ss:
+                continue
+            sp = os.path.join(wd, "seeds_%s.ndjson" % mode)
+            with open(sp, "w") as f:
+                for s_ in ss:
+                    f.write(json.dumps(s_) + "\n")
+            rep = os.path.join(wd, "mrep_%s.ndjson" % mode)
+            r = subprocess.run(["timeout", "3000", bins["c13"], "mutate", mode, sp, str(seed()), str(nmut), str(NCPU), rep], env=env, capture_output=True, text=True)
+            if r.returncode != 0:
+                raise Broken("c13 mutate %s failed rc=%d %s" % (mode, r.returncode, r.stderr[-500:]))
+            per[mode]["mutations"] = nmut
+            total += nmut
+            for line in open(rep):
+                j = json.loads(line)
+                nviol += 1
+                if len(found) < 25:
+                    p = save_replay(pid, "%s-mut-%d" % (mode, j["index"]), {"property": pid, "mode": mode, "in": j["in"], "kind": j["kind"], "status": j["status"]})
+                    found.append((p, "ninja's %s reader: %s (status %s) on a mutated input" % (mode, j["kind"], j["status"])))
+        write_evidence(pid, tier, "exploration", {
+            "evaluations": total, "distinct_nontrivial": total - sum(1 for _ in ()) - len(spec),
+            "rule": "for each of 8 input formats every concatenation of at most max_tokens tokens of the alphabet of spec/Fuzz.tla (all distinct, all but the empty input non-trivial), "
+                    "plus seeded byte mutations of valid manifests (rendered by TLC from Manifest.tla) and of logs written by the real writers; run through the real parsers/loaders "
+                    "built with ASan+UBSan (alignment check off), watchdog 20 s per input, Fatal() = reported error",
+            "samples": [{"format": m, "alphabet_size": v["tokens"], "max_tokens": v["max_tokens"], "inputs": v["inputs"]} for m, v in per.items()],
+            "formats": per, "exhaustive": True,
+        }, time.time() - t0, nviol, ["clang ASan/UBSan as the observer of memory errors", "token alphabets of spec/Fuzz.tla", "misaligned loads in the deps-log loader are not counted (not a failure class of the property)"])
+        return report(pid, found, {})
+    finally:
+        shutil.rmtree(wd, ignore_errors=True)
